@@ -52,13 +52,13 @@ REAL_VS_STUB = {
                                 'warnings.showwarning', 'all user callbacks', 'GC timing'],
 }
 EXPECTED_PROBES = ('cb:is_leaf', 'cb:flatten_func', 'cb:unflatten_func', 'cb:map_fn', 'cb:key.__hash__', 'cb:key.__lt__',
-                   'cb:meta.__ne__', 'cb:meta.__repr__', 'cb:showwarning', 'cb:meta.__getattr__', 't8:registration-failed-in-hook', 't9:completed', 't9:refused', 't10:observations', 't11:operations', 'stress:preemptive-run', 't3:pairing-op',
+                   'cb:meta.__ne__', 'cb:meta.__repr__', 'cb:showwarning', 'cb:meta.__getattr__', 't8:registration-failed-in-hook', 't9:completed', 't9:refused', 't10:observations', 't11:operations', 't12:operations', 'cb:meta.__getattribute__', 'stress:preemptive-run', 't3:pairing-op',
                    'lock:registry:acquire', 'lock:registry:contended', 'switch-inside-callback')
 # 'callback-entered-with-engine-lock-held' is reported as a counter; on a correct tree it stays 0 (it was 30 569 per
 # quick run before fix 414fcff)
 
 V = _C._verif if hasattr(_C, '_verif') else None
-TEMPLATES = ('T1', 'T2', 'T3', 'T4', 'T5', 'T6', 'T7', 'T8', 'T9', 'T10', 'T11')
+TEMPLATES = ('T1', 'T2', 'T3', 'T4', 'T5', 'T6', 'T7', 'T8', 'T9', 'T10', 'T11', 'T12')
 PKG_PREFIX = os.path.dirname(optree.__file__) + os.sep
 REGMOD = optree.registry
 
@@ -263,7 +263,7 @@ def run_job(job, io):
     REGMOD.__dict__['__REGISTRY_LOCK'] = old_lock
 
     for lab, n in sim.probes.items():
-        if lab.startswith(('cb:', 'lock:', 't3:', 't5:', 't8:', 't9:', 't10:', 't11:')) or lab in ('callback-entered-with-engine-lock-held',):
+        if lab.startswith(('cb:', 'lock:', 't3:', 't5:', 't8:', 't9:', 't10:', 't11:', 't12:')) or lab in ('callback-entered-with-engine-lock-held',):
             probes[lab] += n
     py_lines = sum(n for lab, n in sim.probes.items() if lab.startswith('py:'))
     probes['py-line-yield-points'] += py_lines
@@ -731,6 +731,65 @@ def tpl_T11(sim, tape, viol, keys, desc, cb, job):
         for t, oi, res in got:
             if res != solo[(t, oi)] and not (res[0] == 'exc' and 'EngineWouldBlock' in res[1]):
                 viol('not-sequential', 'T11:%s' % ops[oi][0], 'an operation on treespecs that no other task touches gave %r; run alone it gives %r' % (res, solo[(t, oi)]))
+                break
+
+    def cleanup():
+        pass
+    return {'cleanup': cleanup}
+
+
+# -------------------------------------------------------------------------------------------------- T12
+def tpl_T12(sim, tape, viol, keys, desc, cb, job):
+    """Every task asks questions about the SAME class that no one has classified yet (a namedtuple subclass / a plain tuple
+    subclass made inside the run, with a metaclass whose attribute lookup is a callback): the first classification is parked
+    inside the hook while the others ask.  What a class IS does not depend on who asks first: every answer equals the one a
+    twin class gives alone."""
+    base = (U.NT1, U.NT2, tuple)[tape.draw(3, 't12-base')]
+    fresh = U.MetaGAHook('FreshNT12', (base,), {'__slots__': ()} if base is not tuple else {})
+    twin = U.MetaGAHook('FreshNT12', (base,), {'__slots__': ()} if base is not tuple else {})
+    nf = len(getattr(base, '_fields', (0, 0)))
+
+    def mk(cls):
+        return cls(*[U.Leaf(i) for i in range(nf)]) if base is not tuple else cls([U.Leaf(i) for i in range(nf)])
+
+    ops = (('flatten', lambda c: (lambda r: (len(r[0]), repr(r[1]).replace(c.__name__, 'C')))(optree.tree_flatten([mk(c)]))),
+           ('is_namedtuple', lambda c: optree.is_namedtuple(mk(c))), ('is_namedtuple_class', lambda c: optree.is_namedtuple_class(c)),
+           ('namedtuple_fields', lambda c: optree.namedtuple_fields(c)), ('is_structseq_class', lambda c: optree.is_structseq_class(c)),
+           ('leaves', lambda c: len(optree.tree_leaves({'k': mk(c)}))), ('is_leaf', lambda c: optree.tree_is_leaf(mk(c))),
+           ('one_level', lambda c: len(optree.tree_flatten_one_level(mk(c))[0])), ('map', lambda c: gen.describe(tuple(optree.tree_map(lambda a, b: a, mk(c), mk(c))))),
+           ('up_to', lambda c: len(optree.tree_structure(mk(c)).flatten_up_to(mk(c)))))
+
+    def run_one(c, oi):
+        try:
+            return ('ok', ops[oi][1](c))
+        except BaseException as e:  # noqa: BLE001
+            return ('exc', '%s: %s' % (type(e).__name__, str(e)[:80].replace(c.__name__, 'C')))
+
+    n_tasks = 2 + tape.draw(2, 't12-tasks')
+    progs = [[tape.draw(len(ops), 't12-op') for _ in range(1 + tape.draw(2, 't12-nops'))] for _ in range(n_tasks)]
+    U.HOOK = None
+    solo = {oi: run_one(twin, oi) for p in progs for oi in p}
+    got = []
+
+    def body(t):
+        def run(task):
+            for oi in progs[t]:
+                got.append((t, oi, run_one(fresh, oi)))
+        return run
+
+    set_policy(sim, tape, job)
+    for t in range(n_tasks):
+        sim.spawn('t%d' % t, body(t))
+    desc.update({'base': base.__name__, 'programs': [[ops[o][0] for o in p] for p in progs]})
+    U.HOOK = cb
+    sim.run()
+    U.HOOK = None
+    if sim.deadlock is None and not sim.engine_blocks:
+        sim.probes['t12:operations'] += len(got)
+        for t, oi, res in got:
+            if res != solo[oi] and not (res[0] == 'exc' and 'EngineWouldBlock' in res[1]):
+                viol('not-sequential', 'T12:%s' % ops[oi][0], 'a question about a class whose first classification was in progress in another task gave %r; '
+                     'a twin class asked alone gives %r' % (res, solo[oi]))
                 break
 
     def cleanup():
